@@ -44,6 +44,9 @@ package v2
 //@   at call provider.Alerts).Put assert [only-valid-alerts] forall i int :: 0 <= i && i < len(arg2) ==> (exists j int :: 0 <= j && j < len(ret("OpenAPIAlertsToAlerts")) && arg2[i] == ret("OpenAPIAlertsToAlerts")[j])
 //@   at call provider.Alerts).Put assert [defaults-applied] forall i int :: 0 <= i && i < len(arg2) ==> (arg2[i].UpdatedAt == first("time.Now") && arg2[i].StartsAt != 0 && arg2[i].EndsAt != 0)
 //@   ensures [put-on-every-path] called("provider.Alerts).Put")
+//@   ensures [store-error-is-reported] ret("provider.Alerts).Put") != nil ==> called("NewPostAlertsInternalServerError") && !called("NewPostAlertsOK")
+//@   ensures [ok-only-when-all-valid-and-stored] called("NewPostAlertsOK") ==> ret("provider.Alerts).Put") == nil && countnil0("Alert).Validate") == count("Alert).Validate")
+//@   ensures [rejected-alerts-are-reported] ret("provider.Alerts).Put") == nil && countnil0("Alert).Validate") < count("Alert).Validate") ==> called("NewPostAlertsBadRequest") && !called("NewPostAlertsOK")
 //@   loop 1 invariant rangeindex < len(alerts) && called("time.Now") && first("time.Now") == now
 //@   loop 1 invariant forall k int :: 0 <= k && k <= rangeindex ==> defaulted(alerts[k], pre(alerts[k].StartsAt), pre(alerts[k].EndsAt), pre(alerts[k].Timeout), now, resolveTimeout)
 //@   loop 1 invariant forall k int :: rangeindex < k && k < len(alerts) ==> alerts[k].StartsAt == pre(alerts[k].StartsAt) && alerts[k].EndsAt == pre(alerts[k].EndsAt) && alerts[k].Timeout == pre(alerts[k].Timeout)
@@ -51,7 +54,8 @@ package v2
 //@   loop 1 invariant forall i int, j int :: 0 <= i && i < j && j < len(alerts) ==> alerts[i] != alerts[j]
 //@   loop 2 invariant called("time.Now") && first("time.Now") == now
 //@   loop 2 invariant rangeindex < len(alerts) && fresh(validAlerts) && base(validAlerts) != base(alerts)
-//@   loop 2 invariant count("Alert).Validate") == rangeindex + 1 && count("removeEmptyLabels") == rangeindex + 1
+//@   loop 2 invariant count("Alert).Validate") == rangeindex + 1 && count("removeEmptyLabels") == rangeindex + 1 && countnil0("Alert).Validate") <= count("Alert).Validate") && countnil0("Alert).Validate") >= 0
+//@   loop 2 invariant (validationErrs == nil) == (countnil0("Alert).Validate") == count("Alert).Validate")) && !called("NewPostAlertsOK") && !called("NewPostAlertsBadRequest") && !called("NewPostAlertsInternalServerError")
 //@   loop 2 invariant forall k int :: 0 <= k && k <= rangeindex && validAlert(alerts[k]) ==> alerts[k] in elems(validAlerts)
 //@   loop 2 invariant forall i int :: 0 <= i && i < len(validAlerts) ==> (exists j int :: 0 <= j && j < len(alerts) && validAlerts[i] == alerts[j])
 //@   loop 2 invariant forall k int :: 0 <= k && k < len(alerts) ==> alerts[k] != nil && alerts[k].UpdatedAt == now && alerts[k].StartsAt != 0 && alerts[k].EndsAt != 0
